@@ -2,7 +2,9 @@
 (* Validation of (synthetic level table, encoder outcome, validator verdict) events recorded *)
 (* from the real encoder and validator (C16).                                               *)
 (*                                                                                          *)
-(* One line per table: the restrictions (key, allowed value set), the ordering pattern, the *)
+(* One line per level definition (class full / geom: a synthetic column; class real: the    *)
+(* real table of the tree under test, restr empty): the restrictions (key, allowed value    *)
+(* set), the ordering pattern, the                                                          *)
 (* outcome the model predicted (design), what the encoder did (unsat / produced / error),   *)
 (* the validator's verdict under the same table with the offending key and value, and the   *)
 (* level-constrained values the validator saw.                                              *)
